@@ -383,3 +383,101 @@ func originOfKeyPart(fd *core.FuncDecl, e ast.Expr, ownerKey *types.Func) string
 	}
 	return "?" + core.ExprStr(e)
 }
+
+// CacheInvalidationOnLastPod is C15-inv: when a pod is removed from the cache's owner index, the cached verdicts of its
+// owner are invalidated unless the owner is KNOWN to still have pods. Path states over deletePod: an exit that has not
+// passed the invalidation must be on a path that established a non-empty pod set of that owner - "the owner is not in
+// the index" is not such a path (the index is reset whenever a policy changes, while the pods stay in the engine).
+func CacheInvalidationOnLastPod(p *core.Program, r *core.Report, rule string) {
+	fd := p.Func(core.PkgEval, "evalCache", "deletePod")
+	inv := p.Func(core.PkgEval, "evalCache", "deleteWorkload")
+	idx := p.Field(core.PkgEval, "evalCache", "ownerToPods")
+	if fd == nil || idx == nil {
+		r.Lost(rule, "(*evalCache).deletePod / ownerToPods")
+		return
+	}
+	info := fd.Pkg.TypesInfo
+	// the invalidation: a call of deleteWorkload, or (when it was inlined) a Remove on the lru cache
+	isInvalidation := func(c *ast.CallExpr) bool {
+		fn := core.Callee(info, c)
+		if fn == nil {
+			return false
+		}
+		if inv != nil && inv != fd && fn == inv.Obj {
+			return true
+		}
+		return fn.Name() == "Remove" || fn.Name() == "Purge"
+	}
+	w := facts.NewWalker(info)
+	nonEmptyKnown := func(f facts.Formula) bool {
+		for _, a := range facts.Atoms(f) {
+			if !strings.HasPrefix(a, "empty:") || !facts.Entails(f, facts.MkNot(facts.Atom(a))) {
+				continue
+			}
+			// the emptiness fact is about an entry of the owner index (directly, or through a local alias)
+			path := facts.StripVersions(strings.TrimPrefix(a, "empty:"))
+			if strings.Contains(path, "."+core.RefName(idx)+"[") {
+				return true
+			}
+			if o := objNamed(fd, path); o != nil {
+				if id := identOf(fd, o); id != nil {
+					if strings.Contains(Unfold(info, fd.Decl.Body, id), "."+core.RefName(idx)+"[") {
+						return true
+					}
+					// v, ok := idx[k]
+					if d, _ := defOf(fd, id); d != nil && strings.Contains(core.ExprStr(d), "."+core.RefName(idx)+"[") {
+						return true
+					}
+				}
+			}
+		}
+		return false
+	}
+	// 0: not invalidated, nothing known; 1: invalidated; 2: the owner is known to have pods left
+	w.Transfer = func(st int, n ast.Node, f facts.Formula) int {
+		if c, ok := n.(*ast.CallExpr); ok && isInvalidation(c) {
+			return 1
+		}
+		// the inlined form: the sweep over the cache's keys (whether or not any key matches)
+		if rs, ok := n.(*ast.RangeStmt); ok && strings.Contains(Unfold(info, fd.Decl.Body, rs.X), ".Keys()") {
+			return 1
+		}
+		return st
+	}
+	w.Refine = func(st int, f facts.Formula) int {
+		if st == 0 && nonEmptyKnown(f) {
+			return 2
+		}
+		return st
+	}
+	bad := ""
+	nExit := 0
+	w.OnExit = func(st int, ret *ast.ReturnStmt, f facts.Formula) {
+		if w.FuncLitDepth > 0 {
+			return
+		}
+		nExit++
+		if st == 0 && !nonEmptyKnown(f) && facts.Satisfiable(f) && bad == "" {
+			pos := p.Pos(fd.Decl.End())
+			if ret != nil {
+				pos = p.Pos(ret.Pos())
+			}
+			bad = "the exit at " + pos + " (path: " + facts.StripVersions(facts.String(f)) + ")"
+		}
+	}
+	w.WalkBody(fd.Decl.Body, nil)
+	r.Check(bad == "" && nExit > 0, rule, fd.Key()+": the owner's cached verdicts are invalidated unless the owner is known to have pods left", p.Pos(fd.Decl.Pos()), "every exit either passed the invalidation or knows a non-empty pod set of the owner",
+		"a pod is removed without invalidating its owner's cached verdicts and without knowing that the owner still has pods: "+bad+" - after a policy change reset the owner index, deleting the workload's last pod leaves its verdicts in the cache, and a replacement workload of the same owner and labels is answered from them")
+}
+
+// identOf returns some identifier of fd that denotes obj.
+func identOf(fd *core.FuncDecl, obj types.Object) *ast.Ident {
+	var out *ast.Ident
+	ast.Inspect(fd.Decl, func(n ast.Node) bool {
+		if id, ok := n.(*ast.Ident); ok && out == nil && fd.Pkg.TypesInfo.ObjectOf(id) == obj {
+			out = id
+		}
+		return out == nil
+	})
+	return out
+}
